@@ -8,6 +8,7 @@ squared distances ints in units of 1/4096.  See harness/cont_common.py for the p
    legacy f = float tuples, i = ints where integral, a = numpy arrays; exp a = arrays, l = lists)
   scenario legacy S T xmin xmax ymin ymax        (T = 0|1 torus)
     place a x y | move a x y | remove a | pos a | agents
+    setpos a x y   (agent.pos = (x, y) written by the user directly, not through the space)
     nbrs x y r incl | dist x1 y1 x2 y2 | heading x1 y1 x2 y2 | oob x y | adj x y
   scenario exp S T cap lo hi [lo hi …]            (one lo hi pair per axis: any number of dimensions ≥ 1)
     new a | set a x… | get a | remove a | agents            (agent-level: `err Attr` on a removed agent object)
@@ -102,6 +103,10 @@ def stepLeg (s : LSpace) (ws : List String) : LSpace × String :=
     | some a => (s, match s.pos a with | none => "ok pos=None" | some p => s!"ok pos={p.1},{p.2}")
     | none => (s, "bad-op")
   | ["agents"] => (s, "ok agents=" ++ commas ((sortNat s.agents).map toString))
+  | ["setpos", a, x, y] =>
+    match a.toNat?, x.toInt?, y.toInt? with
+    | some a, some x, some y => (lpoke s a (x, y), "ok")
+    | _, _, _ => (s, "bad-op")
   | ["nbrs", x, y, r, incl] =>
     match x.toInt?, y.toInt?, r.toInt?, incl.toNat? with
     | some x, some y, some r, some i =>
